@@ -145,3 +145,65 @@ class DivideCounts(Contract):
             return z3.And(*c)
         return [Case("tags", [gfa, line, factor], post, pre=[factor >= 2] + [val[t] >= 0 for t in tags], heap={gfa.oid: {}, line.oid: {}}, models=models,
                      symbols=dict(factor=factor, **{"has_" + t: has[t] for t in tags}, **{"value_" + t: val[t] for t in tags}), minimize=[factor])]
+
+
+@register
+class ComputeCopyNames(Contract):
+    fn = "gfapy/graph_operations/multiplication.py::Multiplication._compute_copy_names"
+    props = ("C15", "C09")
+    fragment = "L"
+    doc = ("the names computed for the copies: exactly factor - 1 names of the form <base>*<k>, pairwise distinct (k strictly increasing), none "
+           "of them carried by a line of the Gfa or referred to by one (for loop with an inner while loop, two invariants; a name is identified "
+           "with its integer suffix, decimal notation being injective; termination of the search for a free suffix is not proved)")
+
+    def cases(self, ctx):
+        import re, builtins
+        g = ctx.gfapy
+        factor = z3.Int("factor")
+        taken, referred = z3.Const("name_in_use", AIB), z3.Const("name_referred_to", AIB)     # indexed by the integer suffix
+        has_suffix = z3.Bool("segment_name_has_a_suffix")
+        gfa = Obj(g.Gfa, "gfa")
+        h0 = {"L_n": z3.Const("L_n", AII), "L_e": z3.Const("L_e", z3.ArraySort(I, AII)), "next_list": z3.Int("next_list")}
+        rid = h0["next_list"]
+        j, j2 = z3.Int("j"), z3.Int("j2")
+        class Groups:
+            def pyvc_call(self, E, pos, kw, st):
+                yield ("val", ("base", "digits"), st)
+        class Match:
+            def pyvc_truth(self, E):
+                return z3.BoolVal(True)
+            def pyvc_attr(self, E, attr, st):
+                if attr != "groups":
+                    raise Unsupported("match.%s" % attr)
+                yield ("val", Groups(), st)
+        models = {re.search: const_model(lambda pat, s_: Opt(z3.Not(has_suffix), Match())), builtins.int: const_model(lambda x: fresh("old_suffix", I)),
+                  g.Gfa.names.fget: const_model(lambda s_: Names(taken)),
+                  ctx.fn("gfapy/lines/finders.py::Finders.line"): (lambda E, st, pos, kw: iter([("val", Opt(z3.Not(z3.Or(taken[pos[1].t], referred[pos[1].t])), Obj(g.Line, "found")), [])]))}
+        free = lambda t: z3.And(z3.Not(taken[t]), z3.Not(referred[t]))
+        label = "Multiplication._compute_copy_names"
+        def el(st, idx):
+            return st.zh["L_e"][rid][idx]
+        def below(st, bound, upto):
+            return z3.ForAll([j], z3.Implies(z3.And(0 <= j, j < upto), z3.And(free(el(st, j)), el(st, j) < bound,
+                                                                             z3.ForAll([j2], z3.Implies(z3.And(j < j2, j2 < upto), el(st, j) < el(st, j2))))))
+        def inv_for(idx, st):
+            off = S(st.env["offset"])
+            return z3.And(idx <= factor - 1, off >= 0, st.zh["L_n"][rid] == idx, st.zh["next_list"] == h0["next_list"] + 1, below(st, 2 + idx + off, idx))
+        def inv_while(_, st):
+            off, i = S(st.env["offset"]), S(st.env["i"])
+            n_ = st.zh["L_n"][rid]
+            return z3.And(off >= 0, st.env["name"].t == i + off, below(st, i + off, n_))
+        inv = {(label, 0): dict(inv=inv_for, modheap=["L_n", "L_e"], mod={"offset": lambda nm: fresh(nm, I), "name": lambda nm: Ref(fresh(nm, I)), "i": lambda nm: fresh(nm, I)}),
+               (label, 1): dict(inv=inv_while, mod={"offset": lambda nm: fresh(nm, I), "name": lambda nm: Ref(fresh(nm, I))})}
+        def post(kd, v, st):
+            if kd != "return" or not isinstance(v, LRef):
+                return z3.BoolVal(False)
+            n_ = st.zh["L_n"][v.id]
+            return z3.And(v.id == rid, n_ == factor - 1,
+                          z3.ForAll([j], z3.Implies(z3.And(0 <= j, j < n_), z3.And(free(el(st, j)),
+                                                                                  z3.ForAll([j2], z3.Implies(z3.And(j < j2, j2 < n_), el(st, j) != el(st, j2)))))))
+        def fmt(template, args):
+            return Ref(S(args[1]))          # "<base>*<k>": identified with k
+        return [Case("names", [gfa, Ref(z3.IntVal(-7)), factor], post, pre=[factor >= 2], zh=h0, heap={gfa.oid: {}}, models=models, invariants=inv,
+                     options=dict(alloc_lists=True, opaque_elems=True, format_model=fmt), symbols=dict(factor=factor), minimize=[factor],
+                     replay=lambda w: {"target": "bounded.replay_helpers:multiply_orchestration_cases"}, confirm=battery_confirm)]
